@@ -6,7 +6,7 @@ from hypothesis import strategies as st
 
 from harness import gens, refs, smooth
 from harness.core import Violation
-from harness.util import req, fmt
+from harness.util import call, req, fmt
 
 PID = "C02"
 LEVEL = "exploration"
@@ -15,7 +15,8 @@ RULE = ("Hypothesis draws a series (9 classes, n 4..200, |v|<=1e4), a gap patter
         "(finite below/inside/above the valid data, 0, huge finite fill values such as -3.4e38, and NaN/+inf/-inf with an unrelated finite nodata for gu, pgu, "
         "wcv, wcvp). Oracles: (1) output and lopt bit-identical across encodings; (2) the output equals the rounding "
         "(tie rule) of an independent LAPACK reference curve fitted to the valid cells only, at every cell incl. the "
-        "missing ones; (3) fewer than 2 (5 for GCV) valid cells -> input returned unchanged, lopt 0. Non-trivial: "
+        "missing ones; (3) fewer than 2 (5 for GCV) valid cells -> input returned unchanged, lopt 0; (4) the same independence through the "
+        "whits / whitsvc / whitswcv accessors with nodata passed as argument (0 included) while the array carries an unrelated nodata attribute. Non-trivial: "
         ">=1 missing cell; distinct by content hash. Cases whose reference curve leaves int16 are discarded and counted.")
 ASSUME = ["LAPACK banded solvers (scipy.linalg.solveh_banded) as reference", "rounding-tie and fragility rules of DESIGN 2.5/2.7"]
 
@@ -110,7 +111,51 @@ def sub_passthrough(case):
                 "%s passthrough lopt" % variant)
 
 
-SUBS = {"placeholder": sub_placeholder, "gapfill": sub_gapfill, "passthrough": sub_passthrough}
+def sub_accessor(case):
+    """The same independence through DataArray.hdc.whit.*: nodata is given as ARGUMENT (0 included), the array carries an unrelated
+    nodata attribute, and every pixel must equal the kernel on that pixel's series with that nodata."""
+    import pandas as pd
+    import xarray as xr
+    import hdc.algo  # noqa: F401
+
+    pix = np.array(case["pixels"], dtype="float64")
+    vm = np.array(case["valid"], dtype=bool)
+    nt = pix.shape[1]
+    prm = _prm(case)
+    op = case["op"]
+    base = None
+    for enc in case["encodings"]:
+        fill = float(enc["fill"])
+        arr = pix.copy()
+        arr[~vm] = fill
+        cube = arr.reshape(arr.shape[0], 1, nt).astype(case["dtype"])
+        da = xr.DataArray(cube, dims=("y", "x", "time"), coords={"time": pd.date_range("2010-01-01", periods=nt, freq="10D")},
+                          attrs={"nodata": case["attr_nodata"]}).transpose(*case["dims"])
+        nd = enc["fill"] if case["dtype"] != "int16" else int(enc["fill"])
+        if op == "whits":
+            res = call("whits", lambda: da.hdc.whit.whits(nd, s=prm["lam"], **({"p": prm["p"]} if "p" in prm else {})))
+            band, sg = res, None
+        elif op == "whitsvc":
+            ds = call("whitsvc", lambda: da.hdc.whit.whitsvc(nd, srange=prm["llas"], **({"p": prm["p"]} if "p" in prm else {})))
+            band, sg = ds["band"], ds["sgrid"]
+        else:
+            ds = call("whitswcv", lambda: da.hdc.whit.whitswcv(nd, srange=prm["llas"], robust=case["robust"], **({"p": prm["p"]} if "p" in prm else {})))
+            band, sg = ds["band"], ds["sgrid"]
+        b = band.transpose("y", "x", "time").values[:, 0, :]
+        enough = vm.sum(axis=1) >= (5 if op == "whitswcv" else 2)
+        b = np.where(enough[:, None] | vm, b, 0)  # passthrough pixels echo the placeholder at missing cells
+        g = None if sg is None else np.where(enough, sg.transpose("y", "x").values[:, 0], 0)
+        if base is None:
+            base = (b, g, enc)
+            continue
+        req(np.array_equal(b, base[0]), "%s through the accessor: result depends on the nodata value passed (%s vs %s): %s vs %s" % (
+            op, base[2], enc, fmt(base[0].ravel(), 14), fmt(b.ravel(), 14)), "%s accessor placeholder dependence" % op)
+        if g is not None:
+            req(np.array_equal(g, base[1], equal_nan=True), "%s through the accessor: sgrid depends on the nodata value passed: %s vs %s" % (
+                op, fmt(base[1]), fmt(g)), "%s accessor placeholder dependence (sgrid)" % op)
+
+
+SUBS = {"placeholder": sub_placeholder, "gapfill": sub_gapfill, "passthrough": sub_passthrough, "accessor": sub_accessor}
 
 
 @st.composite
@@ -154,7 +199,7 @@ def smoother_case(draw, variants, nmax=200, few_valid=False, gapfill=False):
         encs.append({"fill": v, "nodata": v, "kind": "below"})
     if variant != "optvplc" and not gapfill and draw(st.integers(0, 2)) == 0:
         # very large finite fill values (float rasters commonly use -3.4e38 or 1e20): still "a cell equal to nodata"
-        v = draw(st.sampled_from([-1e15, 1e20, -3.4028234663852886e38, 1e12]))
+        v = draw(st.sampled_from([-1e15, 1e20, -3.4028234663852886e38, 1e12, 1e200, -1.7976931348623157e308]))
         encs.append({"fill": v, "nodata": v, "kind": "huge"})
     if variant in smooth.NONFINITE_OK and not gapfill:
         nd = gens.placeholder_for(y, valid, "below")
@@ -194,6 +239,39 @@ def run(ctx):
                  cls=[case["variant"], "gap:" + case["gcls"], "y:" + case["ycls"]])
 
     ctx.given("gapfill", smoother_case(nonrobust, nmax=ctx.n(120, 200), gapfill=True), ctx.n(700, 10000), fn=f_gapfill)
+
+    @st.composite
+    def acc_case(draw):
+        npx = draw(st.integers(1, 3))
+        nt = draw(st.integers(5, 40))
+        op = draw(st.sampled_from(["whits", "whitsvc", "whitswcv"]))
+        px, vm = [], []
+        for _ in range(npx):
+            s = draw(gens.series(n=nt, classes=["seasonal", "walk", "iid", "step", "flat_spikes"], vmax=8000))
+            y = [v if v != 0 else 1 for v in s["y"]]  # no valid zero, so that 0 can serve as a nodata value
+            px.append(y)
+            vm.append(draw(gens.gap_mask(nt, classes=["isolated", "runs", "leading", "trailing", "all_but_k"], min_valid=0 if draw(st.integers(0, 5)) == 0 else 5))["valid"])
+        allv = {v for y, m in zip(px, vm) for v, ok in zip(y, m) if ok}
+        cands = [c for c in (0, -9999, -32768, 12345, 32767, -1) if c not in allv]
+        fills = draw(st.lists(st.sampled_from(cands), min_size=2, max_size=3, unique=True))
+        if 0 not in fills and draw(st.booleans()):
+            fills[0] = 0
+        case = {"pixels": px, "valid": vm, "op": op, "dtype": draw(st.sampled_from(["int16", "float64"])), "dims": list(draw(st.permutations(["time", "y", "x"]))),
+                "encodings": [{"fill": f, "nodata": f, "kind": "arg"} for f in fills], "attr_nodata": draw(st.sampled_from([-9999, 255, 7])),
+                "robust": draw(st.booleans())}
+        if op == "whits":
+            case["loglam"] = draw(gens.loglam(-2.0, 4.0))
+        else:
+            case["sr"] = draw(gens.srange(min_count=2 if op == "whitswcv" else 3, lo=-3.0, hi=4.0))
+        if draw(st.booleans()):
+            case["p"] = draw(gens.pvals)
+        return case
+
+    def f_acc(case):
+        rec.case("accessor", case, nontrivial=True, cls=["op:" + case["op"], "dtype:" + case["dtype"], "nodata0" if any(e["fill"] == 0 for e in case["encodings"]) else "nonzero"])
+        sub_accessor(case)
+
+    ctx.given("accessor", acc_case(), ctx.n(250, 3000), fn=f_acc)
 
     def f_pass(case):
         case = _norm(case)
